@@ -206,7 +206,15 @@ func (x *Exec) execInstr(st *State, in ssa.Instruction) error {
 		x.noteDropped("channel send")
 	case *ssa.Select:
 		x.noteDropped("select")
-		x.setReg(in, x.havocVal(in.Type(), "select"))
+		sv := x.havocVal(in.Type(), "select")
+		if sv.K == VTuple && len(sv.F) > 0 && sv.F[0].K == VScalar {
+			lo := int64(0)
+			if !in.Blocking {
+				lo = -1
+			}
+			x.assume(st, tAnd(tCmp(">=", sv.F[0].T, intLit(lo)), tCmp("<", sv.F[0].T, intLit(int64(len(in.States))))))
+		}
+		x.setReg(in, sv)
 	case *ssa.MakeChan:
 		x.setReg(in, x.havocVal(in.Type(), "chan"))
 	case *ssa.SliceToArrayPointer, *ssa.MultiConvert:
@@ -458,7 +466,11 @@ func (x *Exec) execUnOp(st *State, in *ssa.UnOp) {
 	case token.MUL: // load
 		switch v.K {
 		case VPath:
-			x.setReg(in, retypeIfNil(x.loadPath(st, v.Path), in.Type()))
+			lv := retypeIfNil(x.loadPath(st, v.Path), in.Type())
+			if v.Path.Ref != nil || v.Path.Arr != nil {
+				x.assume(st, x.refFacts(st, lv, in.Type()))
+			}
+			x.setReg(in, lv)
 		case VScalar:
 			if v.T.S != SInt {
 				x.setReg(in, x.havocVal(in.Type(), "load"))
@@ -469,7 +481,9 @@ func (x *Exec) execUnOp(st *State, in *ssa.UnOp) {
 				x.oblige(st, "nopanic", "nil-deref", tNot(tEq(v.T, intLit(0))), in.Pos(), "pointer is non-nil at load", nil)
 			}
 			x.assume(st, tNot(tEq(v.T, intLit(0))))
-			x.setReg(in, x.loadObj(st, v.T, et, "", et))
+			lv := x.loadObj(st, v.T, et, "", et)
+			x.assume(st, x.refFacts(st, lv, et))
+			x.setReg(in, lv)
 		default:
 			x.unsupported("load through value kind %d", v.K)
 		}
@@ -552,6 +566,7 @@ func (x *Exec) execLookup(st *State, in *ssa.Lookup) {
 		v := x.mapGet(st, mt, base.T, k)
 		has := x.mapHas(st, mt, base.T, k)
 		x.assumeMapWF(st, mt, base.T, k)
+		x.assume(st, x.refFacts(st, v, mt.Elem()))
 		if in.CommaOk {
 			x.setReg(in, &Val{K: VTuple, Typ: in.Type(), F: []*Val{v, scalar(has, nil)}})
 		} else {
@@ -645,7 +660,7 @@ func (x *Exec) execSlice(st *State, in *ssa.Slice) {
 			x.oblige(st, "nopanic", "slice", tAnd(tCmp(">=", lo, intLit(0)), tCmp("<=", lo, hi)), in.Pos(), "slice bounds ordered", nil)
 		}
 		x.assume(st, tAnd(tCmp(">=", lo, intLit(0)), tCmp("<=", lo, hi)))
-		x.setReg(in, &Val{K: VSlice, Typ: in.Type(), F: []*Val{base.F[0], scalar(tArith("+", base.F[1].T, lo), nil), scalar(tArith("-", hi, lo), nil)}})
+		x.setReg(in, x.subSlice(st, base, lo, hi, in.Type()))
 	case VScalar:
 		if base.T.S == SStr {
 			// string / []byte slicing
@@ -679,7 +694,7 @@ func (x *Exec) execSlice(st *State, in *ssa.Slice) {
 				if hi == nil {
 					hi = cur.F[2].T
 				}
-				x.setReg(in, &Val{K: VSlice, Typ: in.Type(), F: []*Val{cur.F[0], scalar(tArith("+", cur.F[1].T, lo), nil), scalar(tArith("-", hi, lo), nil)}})
+				x.setReg(in, x.subSlice(st, cur, lo, hi, in.Type()))
 				return
 			}
 		}
@@ -856,4 +871,26 @@ func (x *Exec) checkGuarded(st *State, structT types.Type, field int, in ssa.Ins
 		held = st.ghost["$heldW"].T
 	}
 	x.oblige(st, "guarded", fname, held, in.Pos(), fmt.Sprintf("field %s accessed with %s held", fname, mon.Lock), nil)
+}
+
+
+// subSlice models s[lo:hi]. From index 0 the result shares the backing array (aliasing preserved);
+// from a non-zero index it is a copy into a fresh array (writes through it are then not seen through s:
+// listed under the extraction's assumptions).
+func (x *Exec) subSlice(st *State, base *Val, lo, hi *Term, t types.Type) *Val {
+	if n, ok := isIntLit(lo); ok && n == 0 {
+		return &Val{K: VSlice, Typ: t, F: []*Val{base.F[0], scalar(intLit(0), nil), scalar(hi, nil)}}
+	}
+	et := t.Underlying().(*types.Slice).Elem()
+	r := x.newRef(st, "subslice")
+	x.assumptions["re-slicing from a non-zero index is modelled as a copy (no aliasing with the original)"] = true
+	for _, lf := range leavesOf(et) {
+		key := sliceKey(et, lf.Path)
+		h := x.heapGet(st, key, arr(SInt, arr(SInt, lf.S)))
+		nw := x.D.fresh("sub.elems", arr(SInt, lf.S))
+		i := &Term{Op: "i!ss", S: SInt}
+		x.assume(st, tForall([]*Term{i}, tEq(tSelect(nw, i), tSelect(tSelect(h, base.F[0].T), tArith("+", i, lo))), []*Term{tSelect(nw, i)}))
+		x.heapSet(st, key, tStore(h, r, nw))
+	}
+	return &Val{K: VSlice, Typ: t, F: []*Val{scalar(r, nil), scalar(intLit(0), nil), scalar(tArith("-", hi, lo), nil)}}
 }
